@@ -558,3 +558,30 @@ where
         Err("not enough shares")
     }
 }
+
+/// `Sharks::recover` returning the *honest* key of the sharing under test: K || 0^8 with K
+/// the PRF output of permutation call 3 (what the Shamir layer returns when the points and
+/// values are untouched: `c16_structure_*` shows y = K||0 for t = 1 and `c16_recover_t1_*`
+/// runs the real interpolation).  Used where exactly one *other* field is altered.
+pub fn sharks_recover_honest_key<'a, T>(_this: &star_sharks::Sharks, _shares: T) -> Result<Vec<u8>, &'static str>
+where
+    T: IntoIterator<Item = &'a star_sharks::Share>,
+    T::IntoIter: Iterator<Item = &'a star_sharks::Share>,
+{
+    let k0 = unsafe { RO_OUT[3][0] }.to_le_bytes();
+    let k1 = unsafe { RO_OUT[3][1] }.to_le_bytes();
+    let mut v = Vec::with_capacity(24);
+    v.extend_from_slice(&k0);
+    v.extend_from_slice(&k1);
+    v.extend_from_slice(&[0u8; 8]);
+    Ok(v)
+}
+
+/// `Sharks::recover` refusing (the counting gate itself is decided by Engine M)
+pub fn sharks_recover_err<'a, T>(_this: &star_sharks::Sharks, _shares: T) -> Result<Vec<u8>, &'static str>
+where
+    T: IntoIterator<Item = &'a star_sharks::Share>,
+    T::IntoIter: Iterator<Item = &'a star_sharks::Share>,
+{
+    Err("Not enough shares to recover original secret")
+}
